@@ -117,7 +117,7 @@ def main(ctx):
     for c in allcases:
         bytax.setdefault(json.dumps(tax_of(c), sort_keys=True), []).append(c)
     keys = sorted(bytax)
-    ntax = len(keys) if thorough else 110
+    ntax = len(keys) if thorough else 220
     chosen = vlib.sample(ctx.rng, keys, ntax)
     picked = [c for k in chosen for c in bytax[k]]
     ctx.extra["taxonomies_model"] = len(keys)
@@ -145,7 +145,7 @@ def main(ctx):
 
     # T ---------------------------------------------------------------------------------------
     trace = ctx.path("trace.ndjson")
-    ntrees = 400 if thorough else 36
+    ntrees = 400 if thorough else 80
     ctx.harness(["record", "X06", "--out", trace, "--n", ntrees, "--opt", "bindir=" + bindir,
                  "--opt", "queries=%d" % (16 if thorough else 10), "--opt", "annots=%d" % (4 if thorough else 3),
                  "--opt", "maxn=%d" % (600 if thorough else 240)], timeout=3000)
